@@ -236,6 +236,7 @@ func lruSearchCache(args []string) int {
 	out := fs.String("out", "", "trace")
 	ntr := fs.Int("traces", 60, "traces")
 	length := fs.Int("len", 60, "operations per trace")
+	invpat := fs.Bool("invpat", false, "also call InvalidatePattern (X03; not an operation of C12)")
 	fs.Parse(args)
 	r := seededRand(1212)
 	w := newTraceWriter(*out)
@@ -257,6 +258,8 @@ func lruSearchCache(args []string) int {
 		Cap   int    `json:"cap"`
 		TTL   int    `json:"ttl"`
 		Tr    int    `json:"tr"`
+		Cls   string `json:"cls"`
+		Q     string `json:"q"`
 	}
 	listID := func(rs []cache.SearchResult) int {
 		var b strings.Builder
@@ -299,6 +302,20 @@ func lruSearchCache(args []string) int {
 			case x < 93:
 				sc.Invalidate()
 				emit(&scEv{Op: "invalidate"})
+			case x < 97 && *invpat && capacity <= 3: // (small caches only: the specification tries every subset of the entries)
+				pat, cls := "", "all"
+				switch r.Intn(6) {
+				case 0:
+					pat = "search:"
+				case 1:
+					pat = []string{"earch", "s", ":"}[r.Intn(3)]
+				case 2:
+					pat, cls = []string{"z", "search:x", "S", " ", "search::"}[r.Intn(5)], "none"
+				case 3, 4:
+					pat, cls = string("0123456789abcdef"[r.Intn(16)])+string("0123456789abcdef"[r.Intn(16)]), "some"
+				}
+				n := sc.InvalidatePattern(pat)
+				emit(&scEv{Op: "invpat", N: n, Cls: cls, Q: pat})
 			default:
 				on = r.Intn(3) != 0
 				sc.Enable(on)
